@@ -161,32 +161,47 @@ def patches(early: bool = False) -> Dict[str, Dict[str, Any]]:
 # ---- the rig: one real scheduler + recording actions ------------------------------------------------------------
 class Rig:
     def __init__(self, ds, kind: str, exit_if_empty: bool = False, bodies: Optional[Dict[str, List[Any]]] = None,
-                 max_workers: Optional[int] = None, log_threads: bool = True):
+                 max_workers: Optional[int] = None, log_threads: bool = True, scheds: int = 1,
+                 owner: Optional[Dict[str, int]] = None, exits: Optional[List[bool]] = None):
+        """`scheds` > 1 (eventloop only): several scheduler INSTANCES live in the same execution; item i belongs to instance
+        owner[str(i)] (default 0).  Every event carries the instance `s` it belongs to - calls and actions by the item's owner,
+        thread start / exit by the instance whose thread_factory created the thread - and each instance's events are validated
+        as a trace of their own (instance_traces): an action of A gathered by B's loop thread shows up in A's trace as a start
+        on a thread A never started."""
         import reactivex.scheduler as RS
         self.ds, self.kind = ds, kind
         self.bodies = bodies or {}
+        self.owner = owner or {}
         self.handles: Dict[int, Any] = {}
         self.events: Dict[Any, Any] = {}
         rig = self
 
-        def factory(target):
-            def body():
-                rig.log(e="tstart")
-                target()                    # an exception kills the thread (recorded as `exc`); Abort = tear-down
-                rig.log(e="texit")
-            return shims.Thread(target=body if log_threads else target, daemon=True)
+        def factory_for(idx):
+            def factory(target):
+                def body():
+                    rig.log(e="tstart", s=idx)
+                    target()                # an exception kills the thread (recorded as `exc`); Abort = tear-down
+                    rig.log(e="texit", s=idx)
+                return shims.Thread(target=body if log_threads else target, daemon=True)
+            return factory
 
+        exits = list(exits) if exits is not None else [bool(exit_if_empty)] * scheds
         if kind == "eventloop":
-            self.S = RS.EventLoopScheduler(thread_factory=factory, exit_if_empty=exit_if_empty)
+            self.SS = [RS.EventLoopScheduler(thread_factory=factory_for(k), exit_if_empty=exits[k]) for k in range(scheds)]
         elif kind == "newthread":
-            self.S = RS.NewThreadScheduler(thread_factory=lambda target: shims.Thread(target=target, daemon=True))
+            self.SS = [RS.NewThreadScheduler(thread_factory=lambda target: shims.Thread(target=target, daemon=True))]
         elif kind == "threadpool":
-            self.S = RS.ThreadPoolScheduler(max_workers=max_workers)
+            self.SS = [RS.ThreadPoolScheduler(max_workers=max_workers)]
         elif kind == "timeout":
-            self.S = RS.TimeoutScheduler()
+            self.SS = [RS.TimeoutScheduler()]
         else:
             raise ValueError(kind)
-        self.ds.trace.append({"e": "cfg", "th": 0, "t": 0, "exit": bool(exit_if_empty), "kind": kind})
+        self.S = self.SS[0]
+        for k in range(len(self.SS)):
+            self.ds.trace.append({"e": "cfg", "th": 0, "t": 0, "s": k, "exit": bool(exits[k]) if kind == "eventloop" else False, "kind": kind})
+
+    def sched_of(self, item: int) -> int:
+        return int(self.owner.get(str(item), 0))
 
     def clk(self) -> int:
         """the controlled clock in MICROSECONDS (the resolution of the library's own datetime clock): every time in a trace is an
@@ -201,10 +216,10 @@ class Rig:
 
     def action(self, i: int):
         def act(scheduler, state=None):
-            self.log(e="start", item=i)
+            self.log(e="start", item=i, s=self.sched_of(i))
             for op in self.bodies.get(str(i), ()):
                 self.op(op)
-            self.log(e="end", item=i)       # not logged when the run is torn down (Abort) inside the body
+            self.log(e="end", item=i, s=self.sched_of(i))       # not logged when the run is torn down (Abort) inside the body
             return None
         return act
 
@@ -226,7 +241,7 @@ class Rig:
             h = self.handles.get(op[1])
             if h is None:
                 return                      # nothing to cancel (yet): the script step is skipped, nothing is logged
-            self.log(e="call", op="cancel", item=op[1], d=0)
+            self.log(e="call", op="cancel", item=op[1], d=0, s=self.sched_of(op[1]))
             res = "ok"
             try:
                 h.dispose()
@@ -234,32 +249,34 @@ class Rig:
                 raise
             except BaseException as e:  # noqa: BLE001
                 res = "exc:" + type(e).__name__
-            self.log(e="ret", res=res)
+            self.log(e="ret", res=res, s=self.sched_of(op[1]))
             return
         if k == "dispose":
-            self.log(e="call", op="dispose", item=0, d=0)
+            si = int(op[1]) if len(op) > 1 else 0
+            self.log(e="call", op="dispose", item=0, d=0, s=si)
             res = "ok"
             try:
-                self.S.dispose()
+                self.SS[si].dispose()
             except detsched.Abort:
                 raise
             except BaseException as e:  # noqa: BLE001
                 res = "exc:" + type(e).__name__
-            self.log(e="ret", res=res)
+            self.log(e="ret", res=res, s=si)
             return
         i = op[1]
+        S = self.SS[self.sched_of(i)]
         d = op[2] if len(op) > 2 else 0
-        self.log(e="call", op=k, item=i, d=US(d))
+        self.log(e="call", op=k, item=i, d=US(d), s=self.sched_of(i))
         res = "ok"
         try:
             if k == "imm":
-                h = self.S.schedule(self.action(i))
+                h = S.schedule(self.action(i))
             elif k == "rel":
-                h = self.S.schedule_relative(float(d), self.action(i))
+                h = S.schedule_relative(float(d), self.action(i))
             elif k == "reltd":
-                h = self.S.schedule_relative(timedelta(seconds=d), self.action(i))
+                h = S.schedule_relative(timedelta(seconds=d), self.action(i))
             elif k == "abs":
-                h = self.S.schedule_absolute(shims.EPOCH + timedelta(seconds=d), self.action(i))
+                h = S.schedule_absolute(shims.EPOCH + timedelta(seconds=d), self.action(i))
             else:
                 raise ValueError(k)
             self.handles[i] = h
@@ -269,7 +286,7 @@ class Rig:
             raise
         except BaseException as e:  # noqa: BLE001
             res = "exc:" + type(e).__name__
-        self.log(e="ret", res=res)
+        self.log(e="ret", res=res, s=self.sched_of(i))
 
 
 def norm_trace(tr: List[Dict[str, Any]]) -> List[Dict[str, Any]]:
@@ -285,7 +302,8 @@ def norm_trace(tr: List[Dict[str, Any]]) -> List[Dict[str, Any]]:
 def run_scenario(sc: Dict[str, Any], choose, max_steps: int = 6000):
     """ONE execution of a scenario under the given scheduling decisions; returns (ds, trace)"""
     def build(ds):
-        rig = Rig(ds, sc["kind"], sc.get("exit", False), sc.get("bodies"), sc.get("workers"))
+        rig = Rig(ds, sc["kind"], sc.get("exit", False), sc.get("bodies"), sc.get("workers"), scheds=sc.get("scheds", 1),
+                  owner=sc.get("owner"), exits=sc.get("exits"))
         for op in sc.get("pro", ()):
             rig.op(op)
         for k, script in enumerate(sc["threads"], start=1):
@@ -308,6 +326,16 @@ def run_scenario(sc: Dict[str, Any], choose, max_steps: int = 6000):
         if t.exc is not None:
             tr.append({"e": "exc", "th": thid(t.name), "t": last_t, "what": repr(t.exc)[:200]})
     return ds, tr
+
+
+def instance_traces(tr: List[Dict[str, Any]]) -> List[List[Dict[str, Any]]]:
+    """one trace per scheduler instance of the execution (events without an instance - quiesce, deadlock, exc - go to all)"""
+    n = 0
+    while n < len(tr) and tr[n]["e"] == "cfg":
+        n += 1
+    if n <= 1:
+        return [tr]
+    return [[tr[k]] + [ev for ev in tr[n:] if ev.get("s", k) == k] for k in range(n)]
 
 
 def explore_scenario(args) -> Dict[str, Any]:
@@ -381,10 +409,42 @@ def el_scenarios(tier: str) -> List[Dict[str, Any]]:
     for b in base:
         for ex in (False, True):
             out.append(dict(b, kind="eventloop", exit=ex))
+    out += backlog_scenarios(tier) + two_scheduler_scenarios(tier)
     early_for = {"timed-imm-cancel", "due-order", "cancel-before-due", "busy-loop", "restart-timed", "timed-chain"}
     out += [dict(b, name=b["name"] + "+early-wait", kind="eventloop", exit=ex, early=True)
             for b in base if b["name"] in early_for for ex in ((False, True) if tier != "quick" else (b["name"] == "due-order",))]
     return out + handover_scenarios(tier)
+
+
+def backlog_scenarios(tier: str) -> List[Dict[str, Any]]:
+    """a backlog: the loop thread is busy (a long action) from the submission of ready-list items until queued timed items have
+    become due, so one gather sees both and the due-time merge across the two classes decides the order"""
+    fam = [
+        # blocker 0..7 | T5 = abs 5 (submitted at 1) | I3 = imm at 3 | T4 = abs 4 submitted at 6 (already due) -> I3, T4, T5
+        dict(name="backlog-merge", threads=[[["imm", 1]], [["sleep", 1], ["abs", 2, 5], ["sleep", 2], ["imm", 3], ["sleep", 3], ["abs", 4, 4]]],
+             bodies={"1": [["sleep", 7]]}, horizon=9),
+        # two timed and two immediate items interleaved by due time: rel due 2, imm at 3, rel due 4, imm at 5
+        dict(name="backlog-interleaved", threads=[[["imm", 1], ["rel", 2, 2], ["rel", 4, 4]], [["sleep", 3], ["imm", 3], ["sleep", 2], ["imm", 5]]],
+             bodies={"1": [["sleep", 6]]}, horizon=8),
+    ]
+    if tier != "quick":
+        fam += [dict(name="backlog-cancel", threads=[[["imm", 1], ["rel", 2, 2], ["rel", 4, 4]], [["sleep", 3], ["imm", 3], ["cancel", 2], ["sleep", 2], ["imm", 5]]],
+                     bodies={"1": [["sleep", 6]]}, horizon=8)]
+    return [dict(b, kind="eventloop", exit=ex) for b in fam for ex in ((False,) if tier == "quick" else (False, True))]
+
+
+def two_scheduler_scenarios(tier: str) -> List[Dict[str, Any]]:
+    """two EventLoopScheduler instances A (0) and B (1) alive in one execution: B's loop thread gathers while A has an
+    immediately-due action pending behind a running one.  Nothing of A may run on B's thread, or overlap A's running action."""
+    own = {"1": 0, "2": 1, "3": 0, "4": 1, "5": 0, "6": 1}
+    fam = [
+        dict(name="two-scheds-busy", threads=[[["imm", 1]], [["imm", 2], ["sleep", 1], ["imm", 3], ["imm", 4]]],
+             bodies={"1": [["sleep", 2]]}, horizon=4, exits=[False, False]),
+        dict(name="two-scheds-race", threads=[[["imm", 1], ["imm", 3]], [["imm", 2], ["imm", 4]]], horizon=2, exits=[True, False]),
+        dict(name="two-scheds-timed", threads=[[["rel", 1, 1], ["imm", 3]], [["imm", 2], ["rel", 4, 1], ["sleep", 1], ["imm", 6]]],
+             bodies={"3": [["sleep", 1]]}, horizon=4, exits=[False, True]),
+    ]
+    return [dict(b, kind="eventloop", scheds=2, owner=own, exit=False) for b in (fam if tier != "quick" else fam[:2])]
 
 
 def handover_scenarios(tier: str) -> List[Dict[str, Any]]:
@@ -521,9 +581,10 @@ def conc_check(ck, scenarios: List[Dict[str, Any]], tier: str, module: str, cons
             ck.count(engine + "_" + k, r["stats"][k])
         if r["truncated"]:
             ck.count(engine + "_scenarios_truncated_at_max_schedules")
-        for (tr, n, dec) in r["traces"]:
-            rows.append((tr, r["scenario"], n, dec))
-            ck.count(engine + "_starts", n * sum(1 for ev in tr if ev["e"] == "start"))
+        for (full, n, dec) in r["traces"]:
+            ck.count(engine + "_starts", n * sum(1 for ev in full if ev["e"] == "start"))
+            for tr in instance_traces(full):
+                rows.append((tr, r["scenario"], n, dec))
     batch = [r[0] for r in rows]
     consts = fit_consts(consts, batch)
     controls = corrupted_controls(batch)
@@ -608,11 +669,13 @@ def replay_record(rec: Dict[str, Any], module: str, consts: Dict[str, Any], inva
     print("scenario:", json.dumps(sc))
     for k, ev in enumerate(tr):
         print(f"  {k:3d} {json.dumps(ev)}")
-    rejected, _ = tracecheck.validate(module, consts, [tr], invariants=invariants)
+    parts = instance_traces(tr)
+    rejected, _ = tracecheck.validate(module, fit_consts(consts, parts), parts, invariants=invariants)
     if rejected:
-        upto = rejected[0][1]
-        print("trace spec verdict: REJECTED at event", upto, json.dumps(tr[upto] if upto < len(tr) else {"e": "end"}),
-              label_rejection(tr, upto))
+        k, upto = rejected[0]
+        tr = parts[k]
+        print(f"trace spec verdict: REJECTED (scheduler instance {k}) at event", upto,
+              json.dumps(tr[upto] if upto < len(tr) else {"e": "end"}), label_rejection(tr, upto))
         return 1
     print("trace spec verdict: accepted (same schedule on the current tree)")
     return 0
@@ -830,7 +893,7 @@ def imm_judge(hist: List[Dict[str, Any]], form: str) -> Optional[Dict[str, Any]]
     return None
 
 
-IMPL_INVS = ["Serial", "OneThread", "Fifo", "DueOrder", "NotEarly", "CancelledNeverRuns", "NoRunAfterDisposeReturned",
+IMPL_INVS = ["Serial", "OneThread", "Fifo", "DueOrder", "CrossOrderTI", "CrossOrderIT", "NotEarly", "CancelledNeverRuns", "NoRunAfterDisposeReturned",
              "ThreadForPending", "NoLostWakeup"]
 IMPL_ACTIONS = ["c0", "c1", "c2", "c3", "k1", "k2", "d1", "d2", "l0", "l1", "l2", "l3", "l4", "l5", "l6", "lx", "t0"]
 
